@@ -349,6 +349,14 @@ func scenarios() []hx.Scenario {
 			add(scripts, 0, false)
 		}
 	}
+	// Reset next to a writer of unrelated keys (which sort before and after the
+	// old ones in the map's iteration order): once Reset has returned, every key
+	// that was there before it began and was not Set again is gone
+	S0, Sz := op{'S', "0", 2}, op{'S', "z", 2}
+	for _, other := range [][]op{{S0}, {Sz}, {S0, Sz}, {Z5, S0}} {
+		add([][]op{{S1, Sb, R, Gb, G}, other}, 0, false)
+		add([][]op{{Sb, S1, R, G, Gb}, other, {Z5, G}}, 0, true)
+	}
 	for _, w := range writer {
 		for _, r := range reader {
 			for ti, t := range third {
